@@ -135,7 +135,41 @@ def r18_1(chk: Check) -> None:
             count += 1
             chk.ob("R18.1", fi.where(st), f"{name}: `{n(tgt)} = ...` evaluates only the points selected by `{m.id}`",
                    not bad, "; ".join(bad) + f"  [{n(st)[:120]}]", key=f"masked|{name}|{m.id}|{_callee_key(st.value)}")
-    chk.floor("R18.1", 8)
+    # out-of-range points go through the mode dispatch (_evaluateOutOfBounds), in-range points through the spline
+    for name in ("evaluate", "derivative"):
+        fi = ci.methods.get(name)
+        if fi is None:
+            raise AnchorMissing(f"InterpolatableFunction.{name} not found")
+        inside, outside = set(), set()
+        for st in own_nodes(fi.node):
+            if isinstance(st, ast.Assign) and len(st.targets) == 1:
+                t, v = st.targets[0], st.value
+                if isinstance(t, ast.Tuple) and isinstance(v, ast.Call) and isinstance(v.func, ast.Attribute) and v.func.attr in summ \
+                        and isinstance(t.elts[0], ast.Name):
+                    inside.add(t.elts[0].id)
+        for st in own_nodes(fi.node):
+            if isinstance(st, ast.Assign) and isinstance(st.targets[0], ast.Name) and isinstance(st.value, ast.UnaryOp) \
+                    and isinstance(st.value.op, (ast.Invert, ast.Not)) and isinstance(st.value.operand, ast.Name) and st.value.operand.id in inside:
+                outside.add(st.targets[0].id)
+        seen_out = seen_in = 0
+        for st in own_nodes(fi.node):
+            if isinstance(st, ast.Assign) and isinstance(st.targets[0], ast.Subscript) and isinstance(st.targets[0].slice, ast.Name):
+                m = st.targets[0].slice.id
+                used = {x.attr for x in ast.walk(st.value) if isinstance(x, ast.Attribute) and isinstance(x.value, ast.Name) and x.value.id == "self"}
+                if m in outside:
+                    seen_out += 1
+                    ok = "_evaluateOutOfBounds" in used and not ({"_evaluateDirectly", "_functionImplementation"} & used)
+                    chk.ob("R18.1", fi.where(st), f"{name}: out-of-range entries are computed through the per-side mode dispatch "
+                           "(_evaluateOutOfBounds), not by direct evaluation", ok, n(st)[:140], key=f"dispatch|{name}|outside")
+                elif m in inside:
+                    seen_in += 1
+                    want = "evaluateInterpolation" if name == "evaluate" else "_interpolatedDerivatives"
+                    ok = want in used and not ({"_evaluateDirectly", "_functionImplementation", "_evaluateOutOfBounds"} & used)
+                    chk.ob("R18.1", fi.where(st), f"{name}: in-range entries come from the spline ({want})", ok, n(st)[:140],
+                           key=f"dispatch|{name}|inside")
+        if not (seen_out and seen_in):
+            raise AnchorMissing(f"{name}: masked stores for inside/outside points not found")
+    chk.floor("R18.1", 12)
 
 
 def _same_mask(fi, a: str, b: str) -> bool:
